@@ -18,15 +18,67 @@ structure OpsPres (f : FsCfg) (I : World → Prop) : Prop where
 
 variable {f : FsCfg} {I : World → Prop}
 
-theorem stat_pres (h : OpsPres f I) (name : Name) (symlink : Bool) : Pres I (stat name symlink) := by
-  have hs := h.stable
+/-! read-only programs need only `RowStable I` -/
+
+theorem stat_ro (hs : RowStable I) (name : Name) (symlink : Bool) : Pres I (stat name symlink) := by
   unfold stat
   repeat pres_step
 
-theorem list_pres (h : OpsPres f I) (name : Name) (limit : Int) : Pres I (list name limit) := by
-  have hs := h.stable
+theorem list_ro (hs : RowStable I) (name : Name) (limit : Int) : Pres I (list name limit) := by
   unfold list
   repeat pres_step
+
+theorem statOrLink_ro (hs : RowStable I) (name : Name) : Pres I (statOrLink name) := by
+  unfold statOrLink
+  repeat (first | with_reducible exact stat_ro hs _ _ | pres_step)
+
+theorem statForUpdate_ro (hs : RowStable I) (name : Name) : Pres I (statForUpdate name) := by
+  unfold statForUpdate
+  repeat (first | with_reducible exact stat_ro hs _ _ | pres_step)
+
+theorem resolveCleanName_ro (hs : RowStable I) (name : Name) : Pres I (resolveCleanName name) := by
+  unfold resolveCleanName
+  repeat pres_step
+
+theorem mkdirGuard_ro (hs : RowStable I) (f : FsCfg) (name : Name) : Pres I (mkdirGuard f name) := by
+  unfold mkdirGuard
+  repeat (first | with_reducible exact stat_ro hs _ _ | pres_step)
+
+theorem removeGuard_ro (hs : RowStable I) (f : FsCfg) (name : Name) : Pres I (removeGuard f name) := by
+  unfold removeGuard
+  repeat (first | with_reducible exact stat_ro hs _ _ | with_reducible exact list_ro hs _ _ | pres_step)
+
+theorem renameGuard_ro (hs : RowStable I) (f : FsCfg) (a b : Name) : Pres I (renameGuard f a b) := by
+  unfold renameGuard
+  repeat (first | with_reducible exact stat_ro hs _ _ | pres_step)
+
+theorem attrGuard_ro (hs : RowStable I) (f : FsCfg) (name : Name) : Pres I (attrGuard f name) := by
+  unfold attrGuard
+  repeat (first | with_reducible exact statForUpdate_ro hs _ | pres_step)
+
+theorem symlinkGuard_ro (hs : RowStable I) (f : FsCfg) (a b : Name) : Pres I (symlinkGuard f a b) := by
+  unfold symlinkGuard
+  repeat (first | with_reducible exact stat_ro hs _ _ | with_reducible exact resolveCleanName_ro hs _ | pres_step)
+
+theorem lstatNoLock_ro (hs : RowStable I) (name : Name) : Pres I (lstatNoLock name) := by
+  unfold lstatNoLock
+  repeat (first | with_reducible exact stat_ro hs _ _ | pres_step)
+
+theorem lstat_ro (hs : RowStable I) (name : Name) : Pres I (lstat name) := by
+  unfold lstat
+  repeat (first | with_reducible exact lstatNoLock_ro hs _ | pres_step)
+
+theorem readlink_ro (hs : RowStable I) (name : Name) : Pres I (readlink name) := by
+  unfold readlink
+  repeat (first | with_reducible exact lstatNoLock_ro hs _ | pres_step)
+
+theorem hReaddir_ro (hs : RowStable I) (hd : Handle) (n : Int) : Pres I (hReaddir hd n) := by
+  unfold hReaddir
+  repeat (first | with_reducible exact list_ro hs _ _ | pres_step)
+
+theorem stat_pres (h : OpsPres f I) (name : Name) (symlink : Bool) : Pres I (stat name symlink) := stat_ro h.stable _ _
+
+theorem list_pres (h : OpsPres f I) (name : Name) (limit : Int) : Pres I (list name limit) := list_ro h.stable _ _
 
 theorem mknod_pres (h : OpsPres f I) (env : Env) (isDir : Bool) (name : Name) (perm : Int) (ov : Bool)
     (l : Name) (init : Bool) : Pres I (mknod f env isDir name perm ov l init) := by
@@ -48,11 +100,8 @@ theorem initFs_pres (h : OpsPres f I) (env : Env) (root : Name) (perm : Int) : P
     | with_reducible exact Pres.op (fun w hw => h.rebuild w hw)
     | pres_step)
 
-theorem mkdir_pres (h : OpsPres f I) (env : Env) (name : Name) (perm : Int) : Pres I (mkdir f env name perm) := by
-  have hs := h.stable
-  have hst := fun a b => stat_pres h a b
-  unfold mkdir
-  repeat (first | with_reducible exact hst _ _ | with_reducible exact mknod_pres h env _ _ _ _ _ _ | pres_step)
+theorem mkdir_pres (h : OpsPres f I) (env : Env) (name : Name) (perm : Int) : Pres I (mkdir f env name perm) :=
+  Pres.bind (mkdirGuard_ro h.stable f name) (fun _ => mknod_pres h env _ _ _ _ _ _)
 
 theorem mkdirAllStep_pres (h : OpsPres f I) (env : Env) (perm : Int) (p : Name) :
     Pres I (mkdirAllStep f env perm p) := by
@@ -74,13 +123,8 @@ theorem mkdirAll_pres (h : OpsPres f I) (env : Env) (path : Name) (perm : Int) :
   · exact Pres.fail _
   · exact mkdirAllLoop_pres h env perm _ _
 
-theorem removeNoLock_pres (h : OpsPres f I) (env : Env) (name : Name) : Pres I (removeNoLock f env name) := by
-  have hs := h.stable
-  unfold removeNoLock
-  repeat (first
-    | with_reducible exact stat_pres h _ _ | with_reducible exact list_pres h _ _
-    | with_reducible exact Pres.op (fun w hw => h.delete w _ _ hw)
-    | pres_step)
+theorem removeNoLock_pres (h : OpsPres f I) (env : Env) (name : Name) : Pres I (removeNoLock f env name) :=
+  Pres.bind (removeGuard_ro h.stable f name) (fun _ => Pres.op (fun w hw => h.delete w _ _ hw))
 
 theorem remove_pres (h : OpsPres f I) (env : Env) (name : Name) : Pres I (remove f env name) := by
   unfold remove
@@ -94,24 +138,18 @@ theorem removeAll_pres (h : OpsPres f I) (env : Env) (name : Name) : Pres I (rem
   repeat (first | with_reducible exact Pres.op (fun w hw => h.delete w _ _ hw) | pres_step)
 
 theorem rename_pres (h : OpsPres f I) (env : Env) (a b : Name) : Pres I (rename f env a b) := by
-  have hs := h.stable
-  unfold rename
-  repeat (first
-    | with_reducible exact stat_pres h _ _ | with_reducible exact removeNoLock_pres h env _
-    | with_reducible exact Pres.op (fun w hw => h.move w _ _ _ hw)
-    | pres_step)
+  refine Pres.bind (renameGuard_ro h.stable f a b) (fun x => ?_)
+  rcases x with ⟨o, n, te⟩
+  show Pres I (if te then removeNoLock f env n else M.op (fun w => move f.c w o n env.recs))
+  split
+  · exact removeNoLock_pres h env n
+  · exact Pres.op (fun w hw => h.move w _ _ _ hw)
 
-theorem statOrLink_pres (h : OpsPres f I) (name : Name) : Pres I (statOrLink name) := by
-  have hs := h.stable
-  unfold statOrLink
-  repeat (first | with_reducible exact stat_pres h _ _ | pres_step)
+theorem statOrLink_pres (h : OpsPres f I) (name : Name) : Pres I (statOrLink name) := statOrLink_ro h.stable _
 
 theorem fsStat_pres (h : OpsPres f I) (name : Name) : Pres I (fsStat name) := statOrLink_pres h _
 
-theorem statForUpdate_pres (h : OpsPres f I) (name : Name) : Pres I (statForUpdate name) := by
-  have hs := h.stable
-  unfold statForUpdate
-  repeat (first | with_reducible exact stat_pres h _ _ | pres_step)
+theorem statForUpdate_pres (h : OpsPres f I) (name : Name) : Pres I (statForUpdate name) := statForUpdate_ro h.stable _
 
 theorem updateMetadata_pres (h : OpsPres f I) (env : Env) (hdr : Hdr) : Pres I (updateMetadata f env hdr) := by
   unfold updateMetadata
@@ -119,17 +157,14 @@ theorem updateMetadata_pres (h : OpsPres f I) (env : Env) (hdr : Hdr) : Pres I (
   · exact Pres.fail _
   · exact Pres.op (fun w hw => h.update w _ _ _ _ hw)
 
-theorem chmod_pres (h : OpsPres f I) (env : Env) (name : Name) (mode : Int) : Pres I (chmod f env name mode) := by
-  unfold chmod
-  repeat (first | with_reducible exact statForUpdate_pres h _ | with_reducible exact updateMetadata_pres h env _ | pres_step)
+theorem chmod_pres (h : OpsPres f I) (env : Env) (name : Name) (mode : Int) : Pres I (chmod f env name mode) :=
+  Pres.bind (attrGuard_ro h.stable f name) (fun _ => updateMetadata_pres h env _)
 
-theorem chown_pres (h : OpsPres f I) (env : Env) (name : Name) (uid gid : Int) : Pres I (chown f env name uid gid) := by
-  unfold chown
-  repeat (first | with_reducible exact statForUpdate_pres h _ | with_reducible exact updateMetadata_pres h env _ | pres_step)
+theorem chown_pres (h : OpsPres f I) (env : Env) (name : Name) (uid gid : Int) : Pres I (chown f env name uid gid) :=
+  Pres.bind (attrGuard_ro h.stable f name) (fun _ => updateMetadata_pres h env _)
 
-theorem chtimes_pres (h : OpsPres f I) (env : Env) (name : Name) (a m : Int) : Pres I (chtimes f env name a m) := by
-  unfold chtimes
-  repeat (first | with_reducible exact statForUpdate_pres h _ | with_reducible exact updateMetadata_pres h env _ | pres_step)
+theorem chtimes_pres (h : OpsPres f I) (env : Env) (name : Name) (a m : Int) : Pres I (chtimes f env name a m) :=
+  Pres.bind (attrGuard_ro h.stable f name) (fun _ => updateMetadata_pres h env _)
 
 theorem lstatNoLock_pres (h : OpsPres f I) (name : Name) : Pres I (lstatNoLock name) := by
   unfold lstatNoLock
@@ -143,23 +178,23 @@ theorem readlink_pres (h : OpsPres f I) (name : Name) : Pres I (readlink name) :
   unfold readlink
   repeat (first | with_reducible exact lstatNoLock_pres h _ | pres_step)
 
-theorem resolveCleanName_pres (h : OpsPres f I) (name : Name) : Pres I (resolveCleanName name) := by
-  have hs := h.stable
-  unfold resolveCleanName
-  repeat pres_step
-
 theorem symlink_pres (h : OpsPres f I) (env : Env) (a b : Name) : Pres I (symlink f env a b) := by
-  unfold symlink
-  repeat (first
-    | with_reducible exact stat_pres h _ _ | with_reducible exact resolveCleanName_pres h _ | with_reducible exact mknod_pres h env _ _ _ _ _ _
-    | pres_step)
+  refine Pres.bind (symlinkGuard_ro h.stable f a b) (fun x => ?_)
+  rcases x with ⟨o, n⟩
+  exact mknod_pres h env _ _ _ _ _ _
 
-theorem openFile_pres (h : OpsPres f I) (env : Env) (name : Name) (flag : Nat) (perm : Int) :
+/-- `OpenFile` preserves whatever its probes and `mknodeWithoutLocking` preserve -/
+theorem openFile_pres' (hs : RowStable I) (env : Env)
+    (hm : ∀ a b c d e g, Pres I (mknod f env a b c d e g)) (name : Name) (flag : Nat) (perm : Int) :
     Pres I (openFile f env name flag perm) := by
   unfold openFile
   repeat (first
-    | with_reducible exact stat_pres h _ _ | with_reducible exact mknod_pres h env _ _ _ _ _ _
+    | with_reducible exact stat_ro hs _ _ | with_reducible exact hm _ _ _ _ _ _
     | pres_step)
+
+theorem openFile_pres (h : OpsPres f I) (env : Env) (name : Name) (flag : Nat) (perm : Int) :
+    Pres I (openFile f env name flag perm) :=
+  openFile_pres' h.stable env (fun _ _ _ _ _ _ => mknod_pres h env _ _ _ _ _ _) name flag perm
 
 theorem create_pres (h : OpsPres f I) (env : Env) (name : Name) : Pres I (create f env name) := by
   unfold create
@@ -170,10 +205,12 @@ theorem fsOpen_pres (h : OpsPres f I) (env : Env) (name : Name) : Pres I (fsOpen
 
 /-! handle methods -/
 
-theorem restoreContent_pres (h : OpsPres f I) (path : Name) : Pres I (restoreContent f path) := by
-  have hs := h.stable
+theorem restoreContent_ro (hs : RowStable I) (f : FsCfg) (path : Name) : Pres I (restoreContent f path) := by
   unfold restoreContent
   repeat pres_step
+
+theorem restoreContent_pres (h : OpsPres f I) (path : Name) : Pres I (restoreContent f path) :=
+  restoreContent_ro h.stable f path
 
 theorem enterWriteMode_pres (h : OpsPres f I) (hd : Handle) : Pres I (enterWriteMode f hd) := by
   unfold enterWriteMode
@@ -198,8 +235,12 @@ theorem hReaddir_pres (h : OpsPres f I) (hd : Handle) (n : Int) : Pres I (hReadd
   unfold hReaddir
   repeat (first | with_reducible exact list_pres h _ _ | pres_step)
 
-theorem cat_pres (h : OpsPres f I) (env : Env) (name : Name) : Pres I (cat f env name) := by
+theorem cat_pres' (hs : RowStable I) (env : Env)
+    (hm : ∀ a b c d e g, Pres I (mknod f env a b c d e g)) (name : Name) : Pres I (cat f env name) := by
   unfold cat
-  repeat (first | with_reducible exact fsOpen_pres h env _ | with_reducible exact restoreContent_pres h _ | pres_step)
+  repeat (first | exact (openFile_pres' hs env hm _ _ _ : Pres I (fsOpen f env _)) | with_reducible exact restoreContent_ro hs f _ | pres_step)
+
+theorem cat_pres (h : OpsPres f I) (env : Env) (name : Name) : Pres I (cat f env name) :=
+  cat_pres' h.stable env (fun _ _ _ _ _ _ => mknod_pres h env _ _ _ _ _ _) name
 
 end Stfs
